@@ -245,7 +245,18 @@ ODD_SHAPES = ["{{ N }}", "{{ h.N }}", "{{ h[N] }}", "{{ h[h[N]] }}", "{{ h[[N]] 
               "{% liquid\nassign v = h[N]\necho v\n%}", "{% unless h[N] %}u{% else %}{{ h[N] }}{% endunless %}", "{% if h[N] contains N %}c{% endif %}", "{% for x in (i..a[[i]]) limit: a[i] %}{{ x }}{% endfor %}"]
 
 
+# number literals whose shortest text is not their plain decimal text (tiny and huge floats, trailing zeros, signs), in every place a literal
+# can stand; x takes values on both sides of each literal so that a literal that loses digits flips a comparison
+NUMBER_LITS = ["0.0000123456", "0.0000005", "0.00001", "0.000015", "-0.000000123", "0.1", "3.0", "1.10", "-1.5", "123456789.125", "12345678901234567890.5", "0.30000000000000004", "1.0000001", "100000000000000000000", "-0.0", "0.5"]
+NUMBER_SHAPES = ["{{ L }}", "{% if x < L %}a{% else %}b{% endif %}", "{% if x == L %}a{% else %}b{% endif %}", "{{ x | plus: L }}", "{% assign v = L %}[{{ v }}]", "{% case x %}{% when L %}w{% else %}e{% endcase %}", "{{ 1 | times: L }}",
+                 "{% liquid\n echo L\n%}", "{{ 'a' if x >= L else 'b' }}", "{% include 'p', v: L %}", "{% cycle L, 2 %}"]
+NUMBER_DATAS = [{"x": 0}, {"x": 0.00001}, {"x": 0.0000004}, {"x": 1.0e-7}, {"x": -1}, {"x": 1e21}]
+
+
 def cases(ctx: core.Ctx):
+    for gi, (shape, lit) in enumerate(itertools.product(NUMBER_SHAPES, NUMBER_LITS)):
+        if gi % ctx.nshards == ctx.shard:
+            yield {"source": shape.replace("L", lit), "datas": [V.enc(dict(d)) for d in NUMBER_DATAS] + [V.enc({"x": float(lit)})], "kind": "number-literals"}
     for gi, (shape, name) in enumerate(itertools.product(ODD_SHAPES, ODD_NAMES)):
         if gi % ctx.nshards == ctx.shard:
             yield {"source": shape.replace("N", name), "datas": [V.enc(ODD_DATA), V.enc({})], "kind": "odd-names-and-nested-paths"}
